@@ -278,8 +278,13 @@ def handle : Handler := fun op j =>
       let qd ← fList j "qd" getInt
       let opmap ← getOpMap (← fld j "opmap")
       let nm ← fBool j "nid_map"
+      -- optional: `graph.flip()` before the conversion (F18)
+      let fl := match fOpt j "flip" with
+        | some b => b.getBool?.toOption == some true
+        | none => false
       pure <| jExcept (do
-        let g ← buildGraph raw
+        let g0 ← buildGraph raw
+        let g := if fl then g0.flip else g0
         let out ← fromOpgraph qd g opmap nm
         pure [("qD", jList out.qD jIntList),
               ("tensors", jList out.tensors fun A => jList A fun Aa => jList Aa fun Aab => jList Aab fun r => jList r jRat),
